@@ -458,34 +458,35 @@ func runCase(c *wk.Ctx, i int) {
 		db.SetReadOnly()
 		c.Count("persistent_error_mid_protocol", 1)
 	}
-	// every writer must come home (generous watchdog; its firing starts an inspection, it is no verdict)
+	// every writer must come home; a generous wait turns into inspections (two goroutine dumps): only a
+	// writer parked in the write path with no progress anywhere is a verdict
 	done := make(chan struct{})
 	go func() { wg.Wait(); close(done) }()
-	select {
-	case <-done:
-	case <-time.After(60 * time.Second):
-		_, gs := hang.Dump()
-		var parked []string
-		for _, g := range gs {
-			js := strings.Join(g.Frames, " ")
-			if strings.Contains(js, "main.runCase") && strings.Contains(js, "goleveldb/leveldb.(*DB)") {
-				parked = append(parked, fmt.Sprintf("g%d [%s] %s", g.ID, g.State, g.Frames[min(2, len(g.Frames)-1)]))
-			}
-		}
-		time.Sleep(3 * time.Second)
-		select {
-		case <-done:
-		default:
-			fail("writer-never-returned", fmt.Sprintf("%d of %d write calls have not returned; parked writers: %v", atomic.LoadInt64(&calls)-atomic.LoadInt64(&returns), atomic.LoadInt64(&calls), parked), nil)
+	inWritePath := func(g hang.G) bool {
+		js := strings.Join(g.Frames, " ")
+		return strings.Contains(js, "main.runCase") && (strings.Contains(js, "leveldb.(*DB).putRec") || strings.Contains(js, "leveldb.(*DB).Write") || strings.Contains(js, "leveldb.(*DB).writeLocked"))
+	}
+	if ok, vd := hang.WaitOrInspect(done, 60*time.Second, 4*time.Second, 20, func() int64 { return atomic.LoadInt64(&returns) }, inWritePath); !ok {
+		if vd != nil {
+			fail("writer-never-returned", fmt.Sprintf("%d of %d write calls have not returned: a writer is parked in %s [%s] and nothing can make progress (other blocked: %v)", atomic.LoadInt64(&calls)-atomic.LoadInt64(&returns), atomic.LoadInt64(&calls), vd.Parked, vd.ParkedIn, vd.Others), map[string]interface{}{"verdict": vd})
+		} else {
+			c.Inconclusive("writers slow to return, no stable blocked state")
+			atomic.StoreInt32(&bad, 1)
 		}
 	}
 	atomic.StoreInt32(&stop, 1)
 	cdone := make(chan struct{})
 	go func() { cwg.Wait(); close(cdone) }()
-	select {
-	case <-cdone:
-	case <-time.After(60 * time.Second):
-		fail("competitor-never-returned", "a transaction / CompactRange client did not return", nil)
+	if ok, vd := hang.WaitOrInspect(cdone, 60*time.Second, 4*time.Second, 20, func() int64 { return 0 }, func(g hang.G) bool {
+		js := strings.Join(g.Frames, " ")
+		return strings.Contains(js, "main.runCase") && strings.Contains(js, "goleveldb/leveldb.")
+	}); !ok {
+		if vd != nil {
+			fail("competitor-never-returned", fmt.Sprintf("a transaction / CompactRange client is parked in %s [%s] and nothing can make progress", vd.Parked, vd.ParkedIn), map[string]interface{}{"verdict": vd})
+		} else {
+			c.Inconclusive("competitors slow to return, no stable blocked state")
+			atomic.StoreInt32(&bad, 1)
+		}
 	}
 	atomic.StoreInt32(&yieldOn, 0)
 	a.mu.Lock()
